@@ -420,6 +420,12 @@ func scalarToHeader(a interface{}) (hdr *storage.Header, newAlloc bool) {
 	switch at := a.(type) {
 	case Memory:
 		raw = storage.FromMemory(at.Uintptr(), at.MemSize())
+	case string:
+		// a string holds a pointer: its header has to live in memory the garbage collector scans. In a
+		// pooled byte buffer it is invisible, and the characters can be reclaimed while the kernel runs
+		// once the caller's own copy of the string is no longer reachable.
+		ss := []string{at}
+		raw = (*[unsafe.Sizeof(at)]byte)(unsafe.Pointer(&ss[0]))[:]
 	default:
 		raw = allocScalar(a)
 		newAlloc = true
